@@ -43,6 +43,26 @@ static size_t str_join_slash(size_t root, size_t path) { g_join_root = root; g_j
 static bool canonical_rec(size_t normal, size_t *real) { g_canon_calls++; g_canon_arg = normal; if(!g_canon_ok) return 0; *real = g_canon_res; return 1; }
 static bool prefix_rec(size_t a, size_t b) { g_prefix_calls++; g_prefix_a = a; g_prefix_b = b; return g_prefix_ok; }
 '''
+PRE += r'''
+#include <sys/stat.h>
+/* ---- file_server::main: strings are ids; a path may only be opened / listed / streamed if it is the `real` result of a successful check_in_document_root()
+ *      (normalisation, alias mapping, symlink check).  Every id carries that provenance bit in a ghost table. */
+#define IDCAP 64
+bool g_id_checked[IDCAP]; size_t g_next_id; int g_served, g_listed, g_404, g_redirect; size_t g_served_id;
+struct fsrv { bool list_directories_, allow_deflate_, async_; size_t index_file_; };
+static size_t new_id(bool checked) { size_t id = g_next_id; __CPROVER_assert(id < IDCAP, "model: at most IDCAP strings are built"); g_id_checked[id] = checked; g_next_id++; return id; }
+static bool check_in_document_root_rec(size_t name, size_t *real) { int ok; if(!ok) return 0; *real = new_id(1); return 1; }
+static size_t str_cat_slash(size_t a, size_t b) { return new_id(0); }       /* a + "/" + b : a new, unchecked name */
+static size_t str_cat_lit(size_t a) { return new_id(0); }                   /* a + "/" */
+static int file_mode_rec(size_t path) { int m; return m; }
+static void show404_rec(void) { g_404++; }
+static void redirect_rec(size_t to) { g_redirect++; }
+static char last_char(size_t name) { char c; return c; }
+static bool str_is_empty(size_t name) { int b; return b != 0; }
+static void list_dir_rec(size_t url, size_t path) { __CPROVER_assert(path < IDCAP && g_id_checked[path], "the directory that is listed was validated by check_in_document_root"); g_listed++; }
+static void serve_rec(size_t path) { __CPROVER_assert(path < IDCAP && g_id_checked[path], "the file that is opened and streamed was validated by check_in_document_root (normalised, alias-mapped, symlink-checked)"); g_served++; g_served_id = path; }
+static void content_type_rec(size_t path) { }
+'''
 functions = [
     dict(stub=True, cname='verif_memcmp', sig='int verif_memcmp(char const *a, char const *b, size_t n)',
          contract='/* C11 memcmp: 0 iff the n bytes are equal (arbitrary ghost index) */\n__CPROVER_requires(n <= BUF_CAP && __CPROVER_r_ok(a, n) && __CPROVER_r_ok(b, n))\n__CPROVER_assigns()\n'
@@ -74,6 +94,22 @@ __CPROVER_ensures(__CPROVER_return_value ==> (g_canon_calls == 1 && g_canon_ok &
                   g_prefix_calls == 1 && g_prefix_ok && g_prefix_a == root && g_prefix_b == g_canon_res && *real == g_canon_res))
 __CPROVER_ensures(!__CPROVER_return_value ==> (!g_canon_ok || !g_prefix_ok))
 '''),
+    dict(cname='fs_main', file=F, locate=lit('void file_server::main(std::string file_name)'), sig='void fs_main(struct fsrv *self, size_t file_name)', members=['list_directories_', 'allow_deflate_', 'async_', 'index_file_'],
+         rewrites=[(r'std::string (path\w*);', r'size_t \1 = 0;', 2), (r'check_in_document_root\(file_name\+"/" \+ index_file_ ,path2\)', 'check_in_document_root_rec(str_cat_slash(file_name, index_file_), &path2)', 0),
+                   (r'check_in_document_root\(file_name,path\)', 'check_in_document_root_rec(file_name, &path)', 0), (r'check_in_document_root\((\w+),(\w+)\)', r'check_in_document_root_rec(\1, &\2)', 0),
+                   (r'(\w+) \+ "/" \+ (\w+)', r'str_cat_slash(\1, \2)', 0), (r'file_mode\(', 'file_mode_rec(', 1), (r'show404\(\)', 'show404_rec()', 1),
+                   (r'!file_name\.empty\(\)', '!str_is_empty(file_name)', 1), (r"file_name\[file_name\.size\(\)-\w\]", 'last_char(file_name)', 1),
+                   (r'response\(\)\.set_redirect_header\(file_name \+ "/"\);\s*response\(\)\.out\(\)<<std::flush;', 'redirect_rec(str_cat_lit(file_name));', 1),
+                   (r'list_dir\(file_name,path\)', 'list_dir_rec(file_name, path)', 0),
+                   (r'(?s)std::string ext;.*?response\(\)\.io_mode\(http::response::nogzip\);\s*\}', 'content_type_rec(path);', 1),
+                   (r'(?s)if\(async_\) \{.*\}\s*$', 'serve_rec(path); }', 1)],
+         contract=r'''
+__CPROVER_requires(__CPROVER_r_ok(self, sizeof(*self)) && g_next_id == 4 && g_served == 0 && g_listed == 0 && file_name < 4 && self->index_file_ < 4)
+__CPROVER_assigns(__CPROVER_object_whole(g_id_checked), g_next_id, g_served, g_listed, g_404, g_redirect, g_served_id)
+/* C13: whatever the request, at most one thing happens, and the only paths ever opened, streamed or listed are results of check_in_document_root (asserted in the recorders) --
+   in particular the index file of a directory goes through the same validation as a file requested by name */
+__CPROVER_ensures(g_served + g_listed <= 1)
+'''),
 ]
 
 jobs = [
@@ -99,6 +135,7 @@ jobs = [
     __CPROVER_assert(pn != rn || path[k] == ref[k], "normalised path equals the reference normalisation ('.', '..', '//' resolved; never above the root)");
     VERIF_REACH;''', witness=dict(bufs=['path']), replay='c13:normalize_path', replay_link=['-L{BUILD}', '-lcppcms', '-L{BUILD}/booster', '-lbooster']),
     dict(name='fs_is_in_root', props=P, enforce='fs_is_in_root', harness='size_t a, b, r, j, cr; int c1, c2; g_joined_id = j; g_canon_res = cr; g_canon_ok = c1 != 0; g_prefix_ok = c2 != 0; g_canon_calls = 0; g_prefix_calls = 0; fs_is_in_root(a, b, &r); VERIF_REACH;'),
+    dict(name='fs_main', props=P, enforce='fs_main', harness='struct fsrv f; size_t fn; g_next_id = 4; g_id_checked[0] = 0; g_id_checked[1] = 0; g_id_checked[2] = 0; g_id_checked[3] = 0; g_served = 0; g_listed = 0; g_404 = 0; g_redirect = 0; fs_main(&f, fn); VERIF_REACH;'),
 ]
 
 UNIT = dict(
